@@ -21,7 +21,7 @@ def words (s : String) : List String := (s.splitOn " ").filter (· ≠ "")
 
 def nats (ws : List String) : Option (List Nat) := ws.mapM String.toNat?
 
-def showView (v : List (Id × Nat × Int × Id) × List Nat) : String :=
+def showView (v : List (Nat × Nat × Int × Nat) × List Nat) : String :=
   "ok " ++ " ".intercalate (v.1.map fun (a, u, x, m) => s!"{a}:{u}:{x}:{m}") ++ " | " ++ " ".intercalate (v.2.map toString)
 
 def opLine (w : World) (ws : List String) : World × String :=
